@@ -54,7 +54,7 @@ theorem split_of_filter_getLast (P : Edge → Bool) (es : List Edge) (g : Edge)
 
 theorem mem_dedupLast_getLast (es : List Edge) (g : Edge) :
     g ∈ dedupLast es ↔ (es.filter (fun f => f.src == g.src && f.dst == g.dst)).getLast? = some g := by
-  rw [mem_dedupLast]
+  rw [mem_dedupLast_p1]
   constructor
   · rintro ⟨es1, es2, rfl, h⟩
     have h2 : es2.filter (fun f => f.src == g.src && f.dst == g.dst) = [] := by
